@@ -5,6 +5,7 @@
 
       raw text, {print e} (no directives), {css}, {debugger}, {log}, {if}/{elseif}/{else},
       {switch}/{case}/{default}, {foreach $x in [e₁, …]}…{ifempty}… (the list given as a literal),
+      {for $i in range(a[, b[, s]])} / {foreach … in range(…)},
       {let $x: e /}, {let $x}…{/let}, {call} without a data attribute and with value params, header params
       — nested arbitrarily, templates calling templates to any depth (`render_refines_lexical_partial`),
       with expressions of the scalar operator fragment of Props/C01.lean,
@@ -15,13 +16,18 @@
   `let` is visible to the end of its block and not after it, and shadows an outer name only there;
   whenever the specification yields an error the model yields an error.
 
-  Missing for the full `exec_refines_lexical`: {foreach} over a list VALUE and {for … in range(…)} (list
-  values and functions are outside the scalar expression fragment), {call} with data="all" / data="$e" (the
-  caller's entry data has to be related to the frames `alldata` passes; maps are not scalars) or with
-  content params, {msg}, print directives.  Those are covered by the
-  scoping theorems of Props/C02.lean and by the Spec.render oracle of the C02exec correspondence.
+  {foreach} over a list VALUE is `foreach_over_value_refines`: for any list expression whose evaluation
+  agrees with the specification's (e.g. a variable bound to a list of scalars, `list_variable_agrees`);
+  it is a theorem beside the fragment because list values are outside the scalar expression fragment.
+
+  Still outside (exactly): expressions beyond Props/C01's scalar operator fragment (accesses, collection
+  literals other than a loop's list literal, functions other than a loop's range — hence also `index` /
+  `isFirst` / `isLast`), print directives, {call} with data="all" or data="$e" (the caller's entry data would
+  have to be related to the frames `alldata` passes; maps are not scalars), content params
+  ({param k}…{/param}), {msg}.  Those are covered by the scoping theorems of Props/C02.lean and by the Spec.render oracle of the C02exec correspondence.
 -/
 import SoyVerif.Lemmas.ExecRefine
+import SoyVerif.Lemmas.RangeRefine
 
 namespace SoyVerif.Props.C02Spec
 open SoyVerif SoyVerif.Model SoyVerif.Model.Eval SoyVerif.Refine
@@ -54,6 +60,8 @@ def cfrag : Cmd → Bool
   | .ifc _ conds => condsFrag conds
   | .switch _ v cases => frag v && casesFrag cases
   | .forc _ _ (.list _ items) body none => fragList items && bfrag body
+  | .forc _ _ (.func _ name args) body none => name == fRange && fragList args && bfrag body
+  | .forc _ _ (.func _ name args) body (some b) => name == fRange && fragList args && bfrag body && bfrag b
   | .forc _ _ (.list _ items) body (some b) => fragList items && bfrag body && bfrag b
   | .call _ _ false none ps => paramsFrag ps
   | .letValue _ _ e => frag e
@@ -194,6 +202,75 @@ theorem evalIn_list_sim {g : GEnv} {ctx : Scope} {st : St} {env : Spec.Eval.Env}
   · rcases C01.bind_err herr with h' | ⟨vs, _, h'⟩
     · simp [evalIn, evalE, h.2 h']
     · simp at h'
+
+theorem absL_length : ∀ (l : List Value), (absL l).length = l.length
+  | [] => rfl
+  | _ :: r => by simp [absL, absL_length r]
+
+theorem evalArgs_length {m : EEnv} : ∀ (args : ExprList) (n : Nat) (mvs : List Value) (n' : Nat),
+    evalArgs m args n = some (mvs, n') → mvs.length = args.length
+  | .nil, n, mvs, n', h => by rw [evalArgs] at h; simp at h; rw [h.1]; rfl
+  | .cons e r, n, mvs, n', h => by
+    rw [evalArgs] at h
+    split at h
+    · split at h
+      · rename_i vs n2 hr
+        simp only [Option.some.injEq, Prod.mk.injEq] at h
+        rw [← h.1, List.length_cons, evalArgs_length r _ vs n2 hr, ExprList.length]
+      · simp at h
+    · simp at h
+
+theorem applyFn_range_arity (vs : List Val) (h : ¬ ([1, 2, 3].contains vs.length = true)) :
+    Spec.Eval.applyFn Spec.Eval.nRange vs = .error := by
+  rcases vs with _ | ⟨a, _ | ⟨b, _ | ⟨c, _ | ⟨d, r⟩⟩⟩⟩
+  · simp [Spec.Eval.applyFn, Spec.Eval.nRange, Spec.Eval.nIsNonnull, Spec.Eval.nLength, Spec.Eval.nKeys, Spec.Eval.nAugmentMap, Spec.Eval.nRound,
+      Spec.Eval.nFloor, Spec.Eval.nCeiling, Spec.Eval.nMin, Spec.Eval.nMax, Spec.Eval.nStrContains]
+  · simp at h
+  · simp at h
+  · simp at h
+  · simp [Spec.Eval.applyFn, Spec.Eval.nRange, Spec.Eval.nIsNonnull, Spec.Eval.nLength, Spec.Eval.nKeys, Spec.Eval.nAugmentMap, Spec.Eval.nRound,
+      Spec.Eval.nFloor, Spec.Eval.nCeiling, Spec.Eval.nMin, Spec.Eval.nMax, Spec.Eval.nStrContains]
+
+/-- `{for $i in range(…)}`: the range call through `evalIn` -/
+theorem evalIn_range_sim {g : GEnv} {ctx : Scope} {st : St} {env : Spec.Eval.Env} (hr : Rel g ctx st env) (p : Nat)
+    (args : ExprList) (hf : fragList args = true) :
+    (∀ v, Spec.Eval.eval env (.func p fRange args) = .val v → ∃ id mvs st1, evalIn g (.func p fRange args) ctx st = some (.list id mvs, st1) ∧
+        v = .list (absL mvs) ∧ (∀ x ∈ mvs, Scalar x = true) ∧ st1.heap = st.heap ∧ st1.out = st.out) ∧
+    (Spec.Eval.eval env (.func p fRange args) = .error → evalIn g (.func p fRange args) ctx st = none) := by
+  have h := evalArgs_sim hr args hf st.next
+  have hloopS : Spec.Eval.isLoopFn fRange = false := by decide
+  have hloopM : isLoopFunc fRange = false := by decide
+  have har : funcArities fRange = some [1, 2, 3] := by decide
+  have hname : fRange = Spec.Eval.nRange := rfl
+  have hS : Spec.Eval.eval env (.func p fRange args) = (Spec.Eval.evalList env args).bind fun vs => Spec.Eval.applyFn fRange vs := by
+    unfold Spec.Eval.eval
+    simp only [hloopS, Bool.false_eq_true, if_false]
+  rw [hS]
+  refine ⟨fun v hv => ?_, fun herr => ?_⟩
+  · obtain ⟨vs, hv1, hv⟩ := C01.bind_val hv
+    obtain ⟨mvs, n', h1, h2, h3⟩ := h.1 vs hv1
+    rw [hname, ← h2] at hv
+    obtain ⟨id, xs, n'', ha, hveq, hxs⟩ := (range_apply mvs h3 n').1 v hv
+    have hlen : [1, 2, 3].contains args.length = true := by
+      apply Classical.byContradiction
+      intro hc
+      have : ¬ ([1, 2, 3].contains (absL mvs).length = true) := by
+        rw [absL_length, evalArgs_length args _ mvs n' h1]; exact hc
+      rw [applyFn_range_arity _ this] at hv
+      simp at hv
+    refine ⟨id, xs, { st with next := n'' }, ?_, hveq, hxs, rfl, rfl⟩
+    have hlen' : ¬(¬args.length = 1 ∧ ¬args.length = 2 ∧ ¬args.length = 3) := by
+      intro hc; have : ¬ ([1, 2, 3].contains args.length = true) := by simpa using hc
+      exact this hlen
+    simp [evalIn, evalE, hloopM, har, hlen', h1, ha]
+  · by_cases hlen : [1, 2, 3].contains args.length = true
+    · rcases C01.bind_err herr with h' | ⟨vs, hv1, h'⟩
+      · simp [evalIn, evalE, hloopM, har, h.2 h']
+      · obtain ⟨mvs, n', h1, h2, h3⟩ := h.1 vs hv1
+        rw [hname, ← h2] at h'
+        simp [evalIn, evalE, hloopM, har, h1, (range_apply mvs h3 n').2 h']
+    · have hlen' : ¬args.length = 1 ∧ ¬args.length = 2 ∧ ¬args.length = 3 := by simpa using hlen
+      simp [evalIn, evalE, hloopM, har, hlen']
 
 section
 variable (g : GEnv) (hob : g.oblig = []) (esc : Bool) (call : Registry.Tmpl → Run) (hcall : ∀ t, GoodRun (call t))
@@ -748,13 +825,97 @@ theorem cmd_agree : (c : Cmd) → cfrag c = true → ∀ (ctx : Scope) (st : St)
           rw [hlv] at hl
           simp only [AgreeB] at hl
           exact ⟨hl.1, by rw [hl.2.1, hout], hl.2.2⟩
+  | .forc _ var (.func p fname args) (.mk bp cs) none, hf, ctx, st, env, hr, hown, hok => by
+    simp only [cfrag, bfrag, Bool.and_eq_true, beq_iff_eq] at hf
+    obtain ⟨⟨hname, hfa⟩, hfb⟩ := hf
+    subst hname
+    obtain ⟨h1, h2⟩ := evalIn_range_sim hr p args hfa
+    have hb : ∀ ctx' st' env', Rel g ctx' st' env' → Own ctx' st' → ScopeOk ctx' st' →
+        ∃ o : Spec.Eval.ROut, Agree g ctx' st' (execBody g esc call (.mk bp cs) ctx' st') o ∧
+          Spec.Eval.renderBlock reg hasBundle esc entry scall (.mk bp cs) env' = o.bind fun q => .val q.1 := by
+      intro ctx' st' env' hr' hown' hok'
+      refine ⟨cmdsE esc reg hasBundle entry scall cs env', ?_, ?_⟩
+      · rw [execBody]; exact Agree.of_atNode (cmds_agree cs hfb ctx' _ env' (hr'.of_heap rfl) (hown'.atNode _) hok')
+      · rw [Spec.Eval.renderBlock]; exact renderCmds_eq esc reg hasBundle entry scall cs env'
+    rw [execCmd, Spec.Eval.renderCmd]
+    cases hv : Spec.Eval.eval env (.func p fRange args) with
+    | unspec => simp [Spec.Eval.Out.bind, Agree]
+    | error => simp [Spec.Eval.Out.bind, Agree, h2 hv]
+    | val v =>
+      obtain ⟨id, mvs, st1, he, hveq, hsc, hheap, hout⟩ := h1 v hv
+      subst hveq
+      have hr1 : Rel g ctx st1 env := hr.of_heap hheap
+      have hok1 : ScopeOk ctx st1 := fun f hf' => by rw [hheap]; exact hok f hf'
+      simp only [Spec.Eval.Out.bind, he]
+      cases mvs with
+      | nil =>
+        simp only [List.isEmpty_nil, if_true, absL]
+        exact ⟨rfl, by rw [hout]; simp, hr1⟩
+      | cons x rest =>
+        simp only [List.isEmpty_cons, Bool.false_eq_true, if_false, absL]
+        have hl := loop_agree g (execBody g esc call (.mk bp cs)) _ (execBody_good g esc call hcall _) hb var
+          (((x :: rest).length : Int) - 1) ((absV x :: absL rest).length - 1) (x :: rest) 0 ctx st1 env hr1 hok1 hsc
+        rw [absL] at hl
+        cases hlv : Spec.Eval.loopSpec (Spec.Eval.renderBlock reg hasBundle esc entry scall (.mk bp cs)) env var
+            ((absV x :: absL rest).length - 1) (absV x :: absL rest) 0 with
+        | unspec => simp [Agree]
+        | error => rw [hlv] at hl; simpa [Agree, AgreeB] using hl
+        | val out =>
+          rw [hlv] at hl
+          simp only [AgreeB] at hl
+          exact ⟨hl.1, by rw [hl.2.1, hout], hl.2.2⟩
+  | .forc _ var (.func p fname args) (.mk bp cs) (some bE), hf, ctx, st, env, hr, hown, hok => by
+    simp only [cfrag, bfrag, Bool.and_eq_true, beq_iff_eq] at hf
+    obtain ⟨⟨⟨hname, hfa⟩, hfb⟩, hfe⟩ := hf
+    subst hname
+    obtain ⟨h1, h2⟩ := evalIn_range_sim hr p args hfa
+    have hb : ∀ ctx' st' env', Rel g ctx' st' env' → Own ctx' st' → ScopeOk ctx' st' →
+        ∃ o : Spec.Eval.ROut, Agree g ctx' st' (execBody g esc call (.mk bp cs) ctx' st') o ∧
+          Spec.Eval.renderBlock reg hasBundle esc entry scall (.mk bp cs) env' = o.bind fun q => .val q.1 := by
+      intro ctx' st' env' hr' hown' hok'
+      refine ⟨cmdsE esc reg hasBundle entry scall cs env', ?_, ?_⟩
+      · rw [execBody]; exact Agree.of_atNode (cmds_agree cs hfb ctx' _ env' (hr'.of_heap rfl) (hown'.atNode _) hok')
+      · rw [Spec.Eval.renderBlock]; exact renderCmds_eq esc reg hasBundle entry scall cs env'
+    rw [execCmd, Spec.Eval.renderCmd]
+    cases hv : Spec.Eval.eval env (.func p fRange args) with
+    | unspec => simp [Spec.Eval.Out.bind, Agree]
+    | error => simp [Spec.Eval.Out.bind, Agree, h2 hv]
+    | val v =>
+      obtain ⟨id, mvs, st1, he, hveq, hsc, hheap, hout⟩ := h1 v hv
+      subst hveq
+      have hr1 : Rel g ctx st1 env := hr.of_heap hheap
+      have hok1 : ScopeOk ctx st1 := fun f hf' => by rw [hheap]; exact hok f hf'
+      simp only [Spec.Eval.Out.bind, he]
+      cases mvs with
+      | nil =>
+        simp only [List.isEmpty_nil, if_true, absL]
+        have hbe := body_agree bE hfe ctx st1 env hr1 hok1
+        cases hve : Spec.Eval.renderBlock reg hasBundle esc entry scall bE env with
+        | unspec => simp [Spec.Eval.Out.bind, Agree]
+        | error => rw [hve] at hbe; simpa [Spec.Eval.Out.bind, Agree, AgreeB] using hbe
+        | val out =>
+          rw [hve] at hbe
+          simp only [AgreeB] at hbe
+          exact ⟨hbe.1, by rw [hbe.2.1, hout], hbe.2.2⟩
+      | cons x rest =>
+        simp only [List.isEmpty_cons, Bool.false_eq_true, if_false, absL]
+        have hl := loop_agree g (execBody g esc call (.mk bp cs)) _ (execBody_good g esc call hcall _) hb var
+          (((x :: rest).length : Int) - 1) ((absV x :: absL rest).length - 1) (x :: rest) 0 ctx st1 env hr1 hok1 hsc
+        rw [absL] at hl
+        cases hlv : Spec.Eval.loopSpec (Spec.Eval.renderBlock reg hasBundle esc entry scall (.mk bp cs)) env var
+            ((absV x :: absL rest).length - 1) (absV x :: absL rest) 0 with
+        | unspec => simp [Agree]
+        | error => rw [hlv] at hl; simpa [Agree, AgreeB] using hl
+        | val out =>
+          rw [hlv] at hl
+          simp only [AgreeB] at hl
+          exact ⟨hl.1, by rw [hl.2.1, hout], hl.2.2⟩
   | .forc _ _ (.null _) _ _, hf, _, _, _, _, _, _ => by simp [cfrag] at hf
   | .forc _ _ (.bool _ _) _ _, hf, _, _, _, _, _, _ => by simp [cfrag] at hf
   | .forc _ _ (.int _ _) _ _, hf, _, _, _, _, _, _ => by simp [cfrag] at hf
   | .forc _ _ (.float _ _) _ _, hf, _, _, _, _, _, _ => by simp [cfrag] at hf
   | .forc _ _ (.str _ _ _) _ _, hf, _, _, _, _, _, _ => by simp [cfrag] at hf
   | .forc _ _ (.global _ _) _ _, hf, _, _, _, _, _, _ => by simp [cfrag] at hf
-  | .forc _ _ (.func _ _ _) _ _, hf, _, _, _, _, _, _ => by simp [cfrag] at hf
   | .forc _ _ (.map _ _) _ _, hf, _, _, _, _, _, _ => by simp [cfrag] at hf
   | .forc _ _ (.dataRef _ _ _) _ _, hf, _, _, _, _, _, _ => by simp [cfrag] at hf
   | .forc _ _ (.not _ _) _ _, hf, _, _, _, _, _, _ => by simp [cfrag] at hf
@@ -1021,6 +1182,70 @@ theorem exec_refines_lexical_partial (b : Block) (hf : bfrag b = true) (ctx : Sc
   | error => rw [hv] at h; simpa [Spec.Eval.Out.bind, Agree] using h
   | val q => rw [hv] at h; simp only [Agree] at h; simpa [Spec.Eval.Out.bind] using ⟨h.1, h.2.1⟩
 
+include hob hcall hreg hcs in
+/-- {foreach $x in E} over a list VALUE: for ANY list expression `E` whose evaluation agrees with the
+    specification's in the current state (`hE` — e.g. a variable bound to a list of scalars,
+    `list_variable_agrees`), the loop refines the lexical semantics: the body runs once per element in a
+    frame of its own, the loop variable is gone afterwards. -/
+theorem foreach_over_value_refines (p0 : Nat) (var : Bytes) (E : Expr) (bp : Nat) (cs : CmdList) (hfb : csFrag cs = true)
+    (ctx : Scope) (st : St) (env : Spec.Eval.Env) (hr : Rel g ctx st env) (hown : Own ctx st) (hok : ScopeOk ctx st)
+    (hE : (∀ v, Spec.Eval.eval env E = .val v → ∃ id mvs st1, evalIn g E ctx st = some (.list id mvs, st1) ∧
+          v = .list (absL mvs) ∧ (∀ x ∈ mvs, Scalar x = true) ∧ st1.heap = st.heap ∧ st1.out = st.out) ∧
+        (Spec.Eval.eval env E = .error → evalIn g E ctx st = none)) :
+    Agree g ctx st (execCmd g esc call (.forc p0 var E (.mk bp cs) none) ctx st)
+      (Spec.Eval.renderCmd reg hasBundle esc entry scall (.forc p0 var E (.mk bp cs) none) env) := by
+    obtain ⟨h1, h2⟩ := hE
+    have hb : ∀ ctx' st' env', Rel g ctx' st' env' → Own ctx' st' → ScopeOk ctx' st' →
+        ∃ o : Spec.Eval.ROut, Agree g ctx' st' (execBody g esc call (.mk bp cs) ctx' st') o ∧
+          Spec.Eval.renderBlock reg hasBundle esc entry scall (.mk bp cs) env' = o.bind fun q => .val q.1 := by
+      intro ctx' st' env' hr' hown' hok'
+      refine ⟨cmdsE esc reg hasBundle entry scall cs env', ?_, ?_⟩
+      · rw [execBody]; exact Agree.of_atNode (cmds_agree g hob esc call hcall reg hasBundle entry scall hreg hcs cs hfb ctx' _ env' (hr'.of_heap rfl) (hown'.atNode _) hok')
+      · rw [Spec.Eval.renderBlock]; exact renderCmds_eq esc reg hasBundle entry scall cs env'
+    rw [execCmd, Spec.Eval.renderCmd]
+    cases hv : Spec.Eval.eval env E with
+    | unspec => simp [Spec.Eval.Out.bind, Agree]
+    | error => simp [Spec.Eval.Out.bind, Agree, h2 hv]
+    | val v =>
+      obtain ⟨id, mvs, st1, he, hveq, hsc, hheap, hout⟩ := h1 v hv
+      subst hveq
+      have hr1 : Rel g ctx st1 env := hr.of_heap hheap
+      have hok1 : ScopeOk ctx st1 := fun f hf' => by rw [hheap]; exact hok f hf'
+      simp only [Spec.Eval.Out.bind, he]
+      cases mvs with
+      | nil =>
+        simp only [List.isEmpty_nil, if_true, absL]
+        exact ⟨rfl, by rw [hout]; simp, hr1⟩
+      | cons x rest =>
+        simp only [List.isEmpty_cons, Bool.false_eq_true, if_false, absL]
+        have hl := loop_agree g (execBody g esc call (.mk bp cs)) _ (execBody_good g esc call hcall _) hb var
+          (((x :: rest).length : Int) - 1) ((absV x :: absL rest).length - 1) (x :: rest) 0 ctx st1 env hr1 hok1 hsc
+        rw [absL] at hl
+        cases hlv : Spec.Eval.loopSpec (Spec.Eval.renderBlock reg hasBundle esc entry scall (.mk bp cs)) env var
+            ((absV x :: absL rest).length - 1) (absV x :: absL rest) 0 with
+        | unspec => simp [Agree]
+        | error => rw [hlv] at hl; simpa [Agree, AgreeB] using hl
+        | val out =>
+          rw [hlv] at hl
+          simp only [AgreeB] at hl
+          exact ⟨hl.1, by rw [hl.2.1, hout], hl.2.2⟩
+
+omit hob hcall hreg hcs in
+/-- a variable bound to a list of scalars (in both environments) is such an `E` -/
+theorem list_variable_agrees (p : Nat) (key : Bytes) (hk : (key == sIj) = false) (ctx : Scope) (st : St) (env : Spec.Eval.Env)
+    (id : Nat) (xs : List Value) (hxs : ∀ x ∈ xs, Scalar x = true)
+    (hm : lookup st.heap ctx key = .list id xs) (hs : env.lookup key = .list (absL xs)) :
+    (∀ v, Spec.Eval.eval env (.dataRef p key .nil) = .val v → ∃ id mvs st1, evalIn g (.dataRef p key .nil) ctx st = some (.list id mvs, st1) ∧
+        v = .list (absL mvs) ∧ (∀ x ∈ mvs, Scalar x = true) ∧ st1.heap = st.heap ∧ st1.out = st.out) ∧
+    (Spec.Eval.eval env (.dataRef p key .nil) = .error → evalIn g (.dataRef p key .nil) ctx st = none) := by
+  have hk2 : (key == Spec.Eval.sIj) = false := hk
+  have hS : Spec.Eval.eval env (.dataRef p key .nil) = .val (.list (absL xs)) := by
+    rw [Spec.Eval.eval]; simp only [hk2, Bool.false_eq_true, if_false, Spec.Eval.evalAcc, hs]
+  have hM : evalIn g (.dataRef p key .nil) ctx st = some (.list id xs, st) := by
+    simp [evalIn, evalE, hk, evalAccesses, eenv, hm]
+  rw [hS]
+  exact ⟨fun v hv => by simp only [Out.val.injEq] at hv; exact ⟨id, xs, st, hM, hv.symm, hxs, rfl, rfl⟩, fun h => by simp at h⟩
+
 end
 
 /-! ### the closed statement: templates calling templates, `execute` against `Spec.render` -/
@@ -1225,5 +1450,20 @@ example : (execute gCall [116] [] 4).cls = .ok ∧ (execute gCall [116] [] 4).ch
   have hs : Spec.Eval.render gCall.reg (absK gCall.globals) none false [116] (absK []) 4 = .val [91, 76, 93, 76] := by rfl
   rw [hs] at h
   exact h
+
+/-- `{for $i in range(1, 4)}{$i}{/for}{$x}`: "123out" -/
+def body2 : Block :=
+  .mk 0 (.cons (.forc 1 [105] (.func 1 fRange (.cons (.int 1 1) (.cons (.int 1 4) .nil)))
+      (.mk 2 (.cons (.print 2 (.dataRef 2 [105] .nil) []) .nil)) none)
+    (.cons (.print 4 (.dataRef 4 [120] .nil) []) .nil))
+
+example : bufBytes (execBody g0 true (fun _ ctx st => ⟨.fuelOut, ctx, st⟩) body2 ctx0 st0).st.out = [49, 50, 51, 111, 117, 116] := by
+  have hcall : ∀ t, GoodRun ((fun _ ctx st => ⟨.fuelOut, ctx, st⟩ : Registry.Tmpl → Run) t) :=
+    fun _ ctx st _ => ⟨by simp, fun h => by simp at h, Ext.refl _ _⟩
+  have h := exec_refines_lexical_partial g0 rfl true _ hcall [] false [] (fun _ _ => .unspec) rfl (fun _ _ _ _ _ _ _ _ => trivial) body2 (by decide) ctx0 st0 env0 rel0
+    ⟨⟨1, false⟩, [⟨0, true⟩], ⟨[], false⟩, rfl, rfl, rfl⟩ (by intro f hf; simp [ctx0] at hf; rcases hf with rfl | rfl <;> simp [st0])
+  have hs : Spec.Eval.renderBlock [] false true [] (fun _ _ => .unspec) body2 env0 = .val [49, 50, 51, 111, 117, 116] := by rfl
+  rw [hs] at h
+  simpa [bufBytes, st0] using h.2
 
 end SoyVerif.Props.C02Spec
